@@ -4,6 +4,7 @@ from . import envshim  # noqa: F401
 import itertools
 import numpy as np
 from .runner import Component, exc_code
+from . import pubapi
 
 PROP = "C17"
 RULE = ("done components: (population = per agent encoding/active/position-or-None, component with "
@@ -290,7 +291,7 @@ def _set_registration(lib, custom):
             R.register(cls)
         else:
             R.registry[kind].pop(cls.__name__, None)
-            R._registered_components[kind].discard(cls)
+            getattr(R, "_registered_components", {}).get(kind, set()).discard(cls)
 
 
 def _ref(lib, kind_tables, ref):
@@ -375,6 +376,8 @@ def impl_smart(inp):
 
     conc, outs = [], []
     grid_ready = False
+    from abmarl.sim.gridworld.smart import SmartGridWorldSimulation
+    smart = isinstance(sim, SmartGridWorldSimulation)
     for o in ops:
         tag = o[0]
         try:
@@ -384,10 +387,10 @@ def impl_smart(inp):
                 except AssertionError as e:
                     conc.append(o)
                     outs.append([-1, exc_code(e)])
-                    if hasattr(sim, "_states"):
+                    if smart:
                         break           # a placement was refused: partial state, stop here
                     continue
-                if any(type(s).__name__ == "PositionState" for s in sim._states):
+                if any(type(s).__name__ == "PositionState" for s in pubapi.components(sim, "states")):
                     grid_ready = True
                 conc.append(o)
                 outs.append([0, snapshot(), [[int(k[1:]), int(v)] for k, v in sim.rewards.items()]])
@@ -408,13 +411,13 @@ def impl_smart(inp):
                 outs.append([4, ob(sim.get_all_done())])
             else:
                 ag = agents[aid(o[1])]
-                if hasattr(sim, "_observers"):
+                if smart:
                     p = ag.position
                     if not grid_ready or p is None or not (0 <= p[0] < rows and 0 <= p[1] < cols):
                         continue        # the grid observers cannot run: operation not applicable
                     # observers pick a random occupant of a shared cell: same stream both times
                     np.random.seed(len(conc))
-                    per = [_enc_obs(ob_.get_obs(ag)) for ob_ in sim._observers]
+                    per = [_enc_obs(ob_.get_obs(ag)) for ob_ in pubapi.components(sim, "observers")]
                 else:
                     per = []
                 conc.append([5, o[1], per])
